@@ -16,7 +16,7 @@
     Fuel: `unify n` returns OutOfFuel when n is too small; `unify_terminates` shows that on
     consistent substitutions enough fuel always exists and the answer no longer depends on it. *)
 From Coq Require Import ZArith NArith List Bool Lia.
-From V.C12 Require Import Ty TyFacts Unify Proofs Proofs2 Proofs3 Proofs4.
+From V.C12 Require Import Ty TyFacts Unify Proofs Proofs2 Proofs3 Proofs4 Proofs5.
 Import ListNotations.
 
 (* 0. the type language has decidable equality *)
@@ -78,6 +78,51 @@ Theorem unify_solution_set : forall n s t sb sb' th, unify n s t sb = Unifier sb
 Proof. exact result_char. Qed.
 Print Assumptions unify_solution_set.
 
+(* 4c. CALLS.  `synth_call n params ins acts` models synthesize_call = type_check_args from {} (each
+      closed argument type `a` is unified, from the EMPTY substitution, with the parameter type after ONE
+      Substituter pass of the accumulated substitution; failing that a top-level numeric widening is
+      accepted; `subst |= s`), then check_all_solved and check_inst (copy/drop bounds of the parameters).
+      Hypotheses: parameter types are `plain` (no explicitly stored comptime args below, so that
+      `substitute` is the plain homomorphism), argument types are closed, and every quantified
+      variable occurs in some parameter type (`covers`; otherwise /repo reports "cannot infer").
+      fits th i a  =  `a` is the instantiated parameter type (up to the flags unify ignores) or a
+                      numeric widening of it. *)
+Theorem call_accepts_when_instance : forall th params ins acts,
+  Forall (fun i => plain i = true) ins -> Forall closedt acts -> covers params ins ->
+  Forall2 (fun i a => inst th i = a) ins acts ->                    (* an instantiation makes the arguments fit *)
+  (forall x, In x params -> bound_ok x (th x) = true) ->             (* and respects the parameter bounds *)
+  exists n, forall m, n <= m -> synth_call m params ins acts = CallAccepted (map th params).
+Proof. exact call_accept_main. Qed.
+Print Assumptions call_accepts_when_instance.
+
+Theorem call_accepted_sound : forall n params ins acts l,
+  Forall (fun i => plain i = true) ins -> Forall closedt acts ->
+  synth_call n params ins acts = CallAccepted l ->
+  exists th, l = map th params /\ Forall2 (fits th) ins acts /\ forall x, In x params -> bound_ok x (th x) = true.
+Proof. exact call_sound_main. Qed.
+Print Assumptions call_accepted_sound.
+
+Theorem call_rejected_correct : forall n params ins acts th,
+  Forall (fun i => plain i = true) ins -> Forall closedt acts -> covers params ins ->
+  synth_call n params ins acts = CallRejected ->
+  ~ (Forall2 (fun i a => inst th i = a) ins acts /\ forall x, In x params -> bound_ok x (th x) = true).
+Proof. exact call_reject_main. Qed.
+Print Assumptions call_rejected_correct.
+
+(* the property's last sentence, both directions in one statement *)
+Theorem call_iff_instance : forall params ins acts,
+  Forall (fun i => plain i = true) ins -> Forall closedt acts -> covers params ins ->
+  ((exists th, Forall2 (fun i a => inst th i = a) ins acts /\ forall x, In x params -> bound_ok x (th x) = true) ->
+   exists n l, forall m, n <= m -> synth_call m params ins acts = CallAccepted l) /\
+  ((exists n l, synth_call n params ins acts = CallAccepted l) ->
+   exists th, Forall2 (fits th) ins acts /\ forall x, In x params -> bound_ok x (th x) = true).
+Proof.
+  intros params ins acts Pi Ca Cv. split.
+  - intros [th [F B]]. destruct (call_accept_main th params ins acts Pi Ca Cv F B) as [n H]. eauto.
+  - intros [n [l H]]. destruct (call_sound_main n params ins acts l Pi Ca H) as [th [_ [F B]]]. eauto.
+Qed.
+Print Assumptions call_iff_instance.
+
 (* 5. the code as it was before fix-1.patch is unsound and does not terminate *)
 Open Scope N_scope.
 Definition A := Ex 14. Definition B := Ex 22.
@@ -128,3 +173,22 @@ Example ex_flags :   (* linear inputs must agree on flags; non-linear ones need 
   unify 100 (TFun [(TNum KInt, 2)] TNone [] []) (TFun [(TNum KInt, 0)] TNone [] []) [] = Unifier [] /\
   same (TFun [(TNum KInt, 2)] TNone [] []) (TFun [(TNum KInt, 0)] TNone [] []).
 Proof. vm_compute. auto. Qed.
+
+(* calls: f(x: T, y: tuple[T, U]) *)
+Definition T := 14%N. Definition U := 22%N.
+Example ex_call :
+  synth_call 100 [T; U] [Ex T; TTuple [Ex T; Ex U]] [TNum KInt; TTuple [TNum KInt; TBool]] = CallAccepted [TNum KInt; TBool] /\
+  synth_call 100 [T; U] [Ex T; TTuple [Ex T; Ex U]] [TNum KInt; TTuple [TBool; TBool]] = CallRejected /\
+  (* bounds: T is copyable, an array is not *)
+  synth_call 100 [T] [Ex T] [TOpaque array_def [argT (TNum KInt); argC (CVal 2)]] = CallRejected /\
+  (* widening makes acceptance order dependent: g(x: T, y: T) accepts (float, int) but rejects (int, float) *)
+  synth_call 100 [T] [Ex T; Ex T] [TNum KFloat; TNum KInt] = CallAccepted [TNum KFloat] /\
+  synth_call 100 [T] [Ex T; Ex T] [TNum KInt; TNum KFloat] = CallRejected.
+Proof. vm_compute. repeat split. Qed.
+Example ex_call_hyps : covers [T; U] [Ex T; TTuple [Ex T; Ex U]] /\ plain (TTuple [Ex T; Ex U]) = true /\
+  closedt (TTuple [TNum KInt; TBool]).
+Proof.
+  split; [|split; reflexivity]. intros x [<-|[<-|[]]].
+  - exists (Ex T). simpl. auto.
+  - exists (TTuple [Ex T; Ex U]). simpl. auto.
+Qed.
